@@ -209,6 +209,13 @@ def _freeze(x):
     return x
 
 
+def _live(g, r):
+    try:
+        return g.id in set(r.gpr.genes) and any(x is g for x in getattr(r, "_genes", ()))
+    except Exception:
+        return False
+
+
 def content(model):
     from cobra.util.solver import linear_reaction_coefficients
 
@@ -253,6 +260,9 @@ def content(model):
             "annotation": _freeze(g.annotation),
             "reactions": tuple(sorted(r.id for r in g.reactions)),
             "outside_reactions": tuple(sorted(r.id for r in g.reactions if getattr(r, "_model", None) is not model)),
+            # ... of these, the associations that are alive on both sides: the outside reaction's rule names the
+            # gene and the reaction holds this very gene object (as opposed to a stale leftover of a renaming)
+            "outside_live": tuple(sorted(r.id for r in g.reactions if getattr(r, "_model", None) is not model and _live(g, r))),
         }
     groups = {}
     for g in model.groups:
